@@ -43,7 +43,7 @@ NavClauses(e) == LET x == NavBase(e)  o == e.obs IN
      C("parent", o.parent.raised = "" /\ Same(o.parent, Parent(x))),
      C("parent_one_less", x.type = "" \/ Len(x.fields) = 1 \/ Len(o.parent.fields) = Len(x.fields) - 1),
      C("parent_is_prefix", x.type = "" \/ Len(x.fields) = 1 \/ o.parent.fields = SubSeq(x.fields, 1, Len(x.fields) - 1)),
-     C("div_back", x.type = "" \/ (o.div.raised = "" /\ Same(o.div, x))),
+     C("div_back", x.type = "" \/ Len(x.fields) = 1 \/ (o.div.raised = "" /\ Same(o.div, x))),
      C("walk", o.walk.raised = "" /\ (x.type = "" \/ (o.walk.steps = Len(x.fields) - 1 /\ Len(o.walk.end.fields) = 1))),
      C("keytype", o.keytype.raised = "" /\ o.keytype.value = KeyType(x)),
      C("basetype", o.basetype.raised = "" /\ o.basetype.value = BaseType(x)),
